@@ -57,6 +57,8 @@ BOUNDS = {
                      exhaustive_len=3, exhaustive_len_1d=4, sampled=[(4, 150), (6, 150)], group_size=400),
 }
 OUTSIDE = ["index arrays with repeated entries (excluded by the property)",
+           "non-finite values (inf / nan) in sensitivities: outside exact-real arithmetic; two `nonfinite-concrete-*` regression "
+           "items run reset() on kept allocations holding inf / nan (evidence kind `concrete-regression`, not a solver verdict)",
            "a basic slice nested on an integer-array slice (the parent getter returns a copy; see report)",
            "histories longer than the bound and the unsampled words of the maximal length (see BOUNDS.enumeration)",
            "mixing real and complex values inside one ARRAY signal (NumPy casting rules; Python scalars are covered by the "
